@@ -1,5 +1,6 @@
 #!/usr/bin/env python3
-"""C17 translator: QXmppMessage.cpp / QXmppStanza.cpp  ->  lean/Qx/Generated/SceTable.lean
+"""C17 translator: QXmppMessage.cpp / QXmppStanza.cpp (+ QXmppGlobal.h, QXmppClient.cpp, QXmppOmemoManager_p.cpp call sites)
+->  lean/Qx/Generated/SceTable.lean
 
 Cuts `QXmppMessage::serializeExtensions` and `QXmppMessage::parseExtension` at their top-level
 `if (sceMode & QXmpp::ScePublic)` / `if (sceMode & QXmpp::SceSensitive)` blocks and the unguarded tail,
@@ -811,6 +812,32 @@ def translate():
         if w["name"] not in parse_order:
             parse_order.append(w["name"])      # rows nobody recognises: position irrelevant (recogniser .never)
 
+    # ---- the mode predicate (QXmppGlobal.h) must be the one the model's `Guard.on` transcribes
+    g = re.sub(r"\s+", " ", src_of(os.path.join(BASE, "QXmppGlobal.h")))
+    if not re.search(r"enum SceMode : uint8_t \{ SceAll, ScePublic, SceSensitive, \};", g):
+        lost("QXmppGlobal.h: enum SceMode { SceAll, ScePublic, SceSensitive } not found")
+    if not re.search(r"inline constexpr bool operator&\(SceMode mode1, SceMode mode2\) \{ return mode1 == SceAll \|\| mode1 == mode2; \}", g):
+        lost("QXmppGlobal.h: operator&(SceMode, SceMode) is not `mode1 == SceAll || mode1 == mode2` (model: Guard.on)")
+
+    # ---- where the split is used: send path, SCE envelope content, receive path
+    MODE = {"SceAll": "all", "ScePublic": "pub", "SceSensitive": "sens"}
+    cl = src_of(os.path.join(REPO, "src", "client", "QXmppClient.cpp"))
+    sbody, _ = function_body(cl, r"QXmppTask<QXmpp::SendResult>\s+QXmppClient::sendSensitive\s*\(", "QXmppClient::sendSensitive")
+    calls = re.findall(r"->toXml\(\s*&writer\s*(?:,\s*(?:QXmpp::)?(\w+))?\s*\)", sbody)
+    if len(calls) != 1 or calls[0] not in MODE:
+        lost("QXmppClient::sendSensitive: expected exactly one `message->toXml(&writer, QXmpp::<mode>)`, found %s" % calls)
+    send_mode = MODE[calls[0]]
+    pm = re.search(r"message\.parse\(element,\s*e2eeExt->isEncrypted\(element\)\s*\?\s*(?:QXmpp::)?(\w+)\s*:\s*(?:QXmpp::)?(\w+)\)", cl)
+    if not pm or pm.group(1) not in MODE:
+        lost("QXmppClient.cpp: `message.parse(element, e2eeExt->isEncrypted(element) ? <mode> : <mode>)` not found")
+    recv_outer = MODE[pm.group(1)]
+    om = src_of(os.path.join(REPO, "src", "omemo", "QXmppOmemoManager_p.cpp"))
+    em = re.findall(r"stanza\.serializeExtensions\(&writer,\s*(?:QXmpp::)?(\w+),\s*ns_client\.toString\(\)\)", om)
+    rm = re.findall(r"stanza\.parseExtensions\(decryptionResult\.sceContent,\s*(?:QXmpp::)?(\w+)\)", om)
+    if len(em) != 1 or len(rm) != 1 or em[0] not in MODE or rm[0] not in MODE:
+        lost("QXmppOmemoManager_p.cpp: serializeExtensions(&writer, <mode>, ns_client) / parseExtensions(sceContent, <mode>) not found")
+    env_mode, recv_content = MODE[em[0]], MODE[rm[0]]
+
     # ---- emit Lean
     L = []
     L.append("/- GENERATED by translators/sce_table.py from src/base/QXmppMessage.cpp, QXmppStanza.{h,cpp}, QXmppConstants_p.h,")
@@ -847,6 +874,14 @@ def translate():
     L.append("def unknownExtensionsWritten : Guard := .%s" % unknown_written)
     L.append("/-- does `QXmppMessage::toXml` forward its mode to `QXmppStanza::extensionsToXml`? -/")
     L.append("def stanzaTailModeForwarded : Bool := %s" % ("true" if passes_mode else "false"))
+    L.append("/-- `QXmppClient::sendSensitive`: the encrypted message goes on the wire as `toXml(&writer, <this mode>)` -/")
+    L.append("def sendPathMode : Mode := .%s" % send_mode)
+    L.append("/-- OMEMO `createSceEnvelope`: `<content/>` = `serializeExtensions(&writer, <this mode>, ns_client)` -/")
+    L.append("def envelopeContentMode : Mode := .%s" % env_mode)
+    L.append("/-- `MessagePipeline::process`: an encrypted incoming message is first parsed in this mode -/")
+    L.append("def receiveOuterMode : Mode := .%s" % recv_outer)
+    L.append("/-- OMEMO `decryptMessage`: the decrypted content is read by `parseExtensions(sceContent, <this mode>)` -/")
+    L.append("def receiveContentMode : Mode := .%s" % recv_content)
     L.append("")
     L.append("end Qx.Generated.SceTable")
     return "\n".join(L) + "\n", rows
